@@ -9,7 +9,8 @@ CHECKS = {
    technique="ThreadSanitizer on a multi-threaded stress harness + value monitors (exactly-once, permutation, shadow refcount, duplicate-block scan) over many fresh processes with seeded yields",
    text="Hundreds (quick) to thousands (thorough) of fresh processes race 2..16 threads on the first rngCreate, on rngStepR/StepR2/Rekey/IsValid/Close "
         "programs, on once-triggers and on one atomic counter, with seeded yields at hook points between critical sections and CPU-affinity "
-        "masks; TSan reports with a bee2 frame and the harness's value monitors are the oracle; evidence counts distinct interleaving signatures.",
+        "masks; TSan reports with a bee2 frame and the harness's value monitors are the oracle; a hang is decided by progress (no operation "
+        "completed for 120 s, twice), never by wall clock; evidence counts distinct interleaving signatures.",
    note="Schedules are sampled, not enumerated; TSan generalises only over accesses that occurred; TSan build uses -DNDEBUG; x86 only."),
  "C11": dict(level="exploration",
    technique="differential execution: disjoint exact-size buffers vs one exact-size arena with outputs laid over inputs at every offset",
@@ -60,25 +61,28 @@ CHECKS = {
    note="Canonicality asserted only for formats their headers call DER/canonical; legal non-minimal extended APDU codings are tallied, not judged."),
  "C15": dict(level="exploration",
    technique="LD_PRELOAD allocation interposer snapshotting released blocks + forked twin-run differential + secret needle scan on the Release build",
-   text="For 45 secret-taking high-level calls (belt, brng, botp, bign, bels, bpki) every block bee2 frees (or abandons in a moving realloc) "
-        "is snapshotted at release; two forked twins that differ only in the secret must release byte-identical blocks (a wiped block depends "
-        "only on addresses and the wipe counter), and no block may contain an 8-octet window of the secret or its expanded key. Exits covered: "
-        "success, failed authentication, every error exit reachable by corrupting one input (bad private/public key, bad token, short token) "
-        "and every allocation-failure exit.",
-   note="Heap blocks only; gcc -O3 Release build; bake RunA/RunB, g12s/dstu/pfok and btok are not yet in the call table."),
+   text="For about 100 secret-taking high-level calls (belt, brng, botp, bign, bign96, bels, bpki, btok CVC, g12s, dstu, pfok, bakeKDF/SWU and the "
+        "six bake Run drivers against a scripted peer) every block bee2 frees (or abandons in a moving realloc), and every block it still "
+        "holds when it returns, is snapshotted; two twins forked from one memory image that differ only in the secret must show byte-identical "
+        "blocks (a wiped block depends only on addresses and the wipe counter), and no block may contain an 8-octet window of the secret or "
+        "its expanded key. Exits covered: success, failed authentication, every error exit reachable by corrupting one input (bad "
+        "private/public key, bad token, short token, spoiled peer tag) and every allocation-failure exit.",
+   note="Heap blocks only; gcc -O3 Release build; rngCreate and the step-level bake/BAUTH functions (caller-owned state) are not in the call table."),
  "C09": dict(level="fault_enumeration",
    technique="allocation-failure enumeration through an LD_PRELOAD interposer in forked children + header-transcribed argument-contract table under ASan",
    text="Fault half: for every call in the table the k-th allocation issued from libbee2 fails for k = 1, 2, ... until the call completes "
         "without reaching the fault; each faulted call must return an error, not crash (observed in a forked child) and leave no live block. "
         "Argument half (c09_args, when present): one row per err_t function transcribed from the \\expect{ERR_...} clauses; every documented "
         "domain violation must yield the documented error class without crash, and a failed authenticated unwrap must not leave plaintext/key in dest.",
-   note="Faults are injected only at malloc/calloc/realloc called from libbee2; most high-level calls allocate exactly one blob."),
+   note="Faults are injected only at malloc/calloc/realloc called from libbee2; most high-level calls allocate exactly one blob. The fault "
+        "half covers the ~100 secret-taking calls of C15's table plus 28 allocating validators/verifiers/hashes."),
  "C12": dict(level="exploration",
    technique="executable condition lists of the standards as oracles over perturbed standard parameter sets + exhaustive windows (dates, primes, polynomials) under ASan",
    text="Every standard parameter set of bign, bign96, g12s, stb99, dstu, pfok and bels must validate and each single-field alteration is "
         "decided by the model's condition list; public keys on/off curve/twist/out of range, key pairs d in {0,1,q-1,q,q+1}; dates exhaustively "
         "over every octet pair and every valid date of a century; priIsPrimeW/priIsPrime/priNextPrimeW exhaustively on [0,2^17) (thorough 2^20) and "
-        "around 2^32, Carmichael numbers, strong pseudoprimes, products of large primes; ppIsIrred on all 131072 polynomials of degree <= 16.",
+        "around 2^32, Carmichael numbers, strong pseudoprimes, products of large primes; ppIsIrred on all 131072 polynomials of degree <= 16; "
+        "ecp/ec2 IsValid, SeemsValidGroup, IsSafeGroup on complete small curves (orders, cofactors and embedding degrees on the decision boundary).",
    note="Conditions the headers do not settle are executed but not judged; 'accepts every prime' is sampled above 2^33."),
  "C04": dict(level="exploration",
    technique="protocol monitor: both parties hosted in one process with the harness as the network (deliver / alter / substitute / swap), verdict table of the statement, under ASan",
@@ -136,6 +140,7 @@ CHECKS = {
    technique="N-way differential execution of identical case streams in separately built configurations, compared on per-case transcript digests",
    text="The octet-level case streams of C01-C04, C10, C13, C16, C17 run in rel64, rel32 (32-bit words), fast64 (SAFE_FAST) and dbg64 (-O0, "
         "ASSERT on); thorough adds dbg32, -O1, -O2, clang -O3, asan64; bash units additionally in the BASH_32/SSE2/AVX2/AVX-512 variants the "
-        "CPU supports; every case's digest of return codes and output octets must be identical in all configurations.",
+        "CPU supports; every case's digest of return codes and output octets must be identical in all configurations, and no configuration may abort "
+        "(ASSERT, signal) on a case the reference configuration computes.",
    note="Big-endian, B_PER_W = 16 and NEON cannot be built/run here; the 32-bit word configuration uses the guarded hook on the 64-bit ABI."),
 }
